@@ -95,7 +95,12 @@ def evaluate(case):
             out_arg = out_abs = loc
         prepop = {}
         if case["prepopulate"] or outloc == "nested-existing":
-            prepop = {"KEEP_1.txt": b"keep me\n", "zz_keep/old.rst": b"old page\n", "notes.md": b"# notes\n"}
+            prepop = {"KEEP_1.txt": b"keep me\n", "zz_keep/old.rst": b"old page\n", "notes.md": b"# notes\n",
+                      "overview.rst": b"Hand written\n============\n", ".hidden.rst": b"x\n", "conf.py": b"project = 'x'\n"}
+            # foreign files also inside directories the run mirrors from the input tree
+            for dname in sorted(tree["dirs"])[:2]:
+                prepop[f"{dname}/design.rst"] = b"Design notes\n"
+                prepop[f"{dname}/_static/logo.txt"] = b"logo\n"
             for rel, data in prepop.items():
                 p = os.path.join(out_abs, rel)
                 os.makedirs(os.path.dirname(p), exist_ok=True)
